@@ -56,8 +56,10 @@ def fixed_x25519(sk: bytes):
 
 # ------------------------------------------------------------------ scenarios
 class Scn:
-    def __init__(self, family, transport, cfg=0, acc=None, resume=None, m2=(), m4=(), honest=False, detail=""):
+    def __init__(self, family, transport, cfg=0, acc=None, resume=None, m2=(), m4=(), honest=False, detail="",
+                 prior=False, real_eph=False):
         self.family, self.transport, self.cfg = family, transport, cfg
+        self.prior, self.real_eph = prior, real_eph or prior
         self.acc = acc or {}
         self.resume = resume            # dict(ctrl=(sid, secret_name)|None, acc=(sid, secret_name)|None, new_sid=bytes)
         self.m2, self.m4 = list(m2), list(m4)
@@ -227,60 +229,116 @@ def realise(ops, out, ctx, expected=None):
     return rb, sym
 
 
-def run_scenario(s: Scn, glue=None):
-    """Runs the implementation against the reference accessory.  Returns a record with the
-    canonical implementation line, the model request, and everything the oracle needs."""
+MASK = lambda b: bytes(b[:31]) + bytes([b[31] & 0x7F]) if len(b) == 32 else bytes(b)  # noqa: E731
+
+
+class Peer:
+    """The reference accessory plus the scenario's adversary, answering the requests it ACTUALLY receives:
+    the controller's ephemeral public key is taken from the M1 on the wire (no dependence on a key seam)."""
+
+    def __init__(self, s: Scn, U=None, ctrl_name=CTRL_EPH):
+        self.s, self.ctrl_name = s, ctrl_name
+        self.U = U = U or Universe("c01")
+        acc_id, ios_id = IDS[s.cfg]
+        self.acc_id, self.ios_id = acc_id, ios_id
+        self.ctx = ctx = Ctx()
+        ctx.U = U
+        self.stored_ltpk = U.edpub(ACC_LTSK)
+        self.pd = {"AccessoryPairingID": acc_id.decode(), "AccessoryLTPK": self.stored_ltpk.b.hex(),
+                   "iOSPairingId": ios_id.decode(), "iOSDeviceLTSK": U.edsk(CTRL_LTSK).hex(),
+                   "iOSDeviceLTPK": U.edpub(CTRL_LTSK).b.hex()}
+        a = dict(acc_id=acc_id, ltsk=ACC_LTSK, eph=ACC_EPH, ctrl_id=ios_id, ctrl_ltsk=CTRL_LTSK)
+        a.update(s.acc)
+        self.a = a
+        self.session = self.new_sid = self.rs_ctrl = None
+        if s.resume:
+            if s.resume.get("acc"):
+                sid, n = s.resume["acc"]
+                self.session = (lit(sid), prev_secret(U, n))
+            self.new_sid = lit(s.resume.get("new_sid", b"\x09" * 8))
+            if s.resume.get("ctrl"):
+                sid, n = s.resume["ctrl"]
+                self.rs_ctrl = (lit(sid), prev_secret(U, n))
+        self.acc = VerifyAccessory(U, a["acc_id"], a["ltsk"], a["eph"], a["ctrl_id"], U.edpub(a["ctrl_ltsk"]),
+                                   self.session, self.new_sid)
+        ctx.acc, ctx.scn = self.acc, s
+        self.n = 0
+        self.m1 = self.m2 = self.m3 = self.m4 = None
+        self.m2_items = self.m4_items = None
+        self.sym_m2 = self.sym_m4 = "honest"
+        self.m3acc = None
+        self.m1kind = "?"
+        self.eph_sk = None          # known only when the (optional) key seam was effective
+        self.eph_pk = None
+        self.reused_name = None     # the M1 public key was already seen under another name in this universe
+
+    def controller_args(self):
+        if not self.rs_ctrl:
+            return ()
+        prev = self.rs_ctrl[1].b
+        return (self.rs_ctrl[0].b,
+                lambda salt, info, length=32: R.hkdf_sha512(prev, bytes(salt), bytes(info), length))
+
+    def respond(self, request: bytes, expected=None) -> bytes:
+        self.n += 1
+        U, s = self.U, self.s
+        flt = None if (s.transport == "ble" or expected is None) else [int(x) for x in expected]
+        if self.n == 1:
+            self.m1 = bytes(request)
+            dec = ref_decode(self.m1) or []
+            d1 = dict(dec)
+            pk = d1.get(T_PK)
+            self.eph_pk = pk
+            if pk is not None and len(pk) == 32:
+                if pk == R.x25519_pub(U.xsk(self.ctrl_name)):
+                    self.eph_sk = U.xsk(self.ctrl_name)
+                    U.xpub(self.ctrl_name)
+                elif pk in U.reg:
+                    self.reused_name = U.reg[pk]
+                else:
+                    U._reg(V(pk, (f"pub({self.ctrl_name})",)))
+            self.m1kind = "resume" if T_METHOD in d1 else "plain"
+            if self.m1kind == "plain" and (dec != [(T_STATE, b"\x01"), (T_PK, pk)] or pk is None or len(pk) != 32):
+                self.m1kind = "other"
+            _, out = self.acc.on_m1(self.m1)
+            self.ctx.C = self.acc.C
+            self.m2, sym = realise(s.m2, out, self.ctx, flt)
+            self.m2_items = sym
+            self.sym_m2 = None if sym is None else reply_term(sym)
+            return self.m2
+        if self.n == 2:
+            self.m3 = bytes(request)
+            self.m3acc, out4 = self.acc.on_m3(self.m3)
+            self.m4, sym = realise(s.m4, out4, self.ctx, flt)
+            self.m4_items = sym
+            self.sym_m4 = None if sym is None else (reply_term(sym) if s.m4 else "honest")
+            return self.m4
+        raise HarnessError("the controller sent a third request")
+
+    def dh(self, P: bytes):
+        """DH(controller ephemeral, P) for the oracle: directly when the ephemeral secret is known, otherwise
+        from the other side when P is (up to the masked top bit) a public key whose secret the harness holds"""
+        if self.eph_sk is not None:
+            return R.x25519_dh(self.eph_sk, P)
+        if self.eph_pk is None or len(P) != 32:
+            return None
+        for n in (ACC_EPH, OTHER_ACC_EPH, OTHER_CTRL_EPH, CTRL_EPH):
+            if MASK(R.x25519_pub(self.U.xsk(n))) == MASK(P):
+                return R.x25519_dh(self.U.xsk(n), self.eph_pk)
+        return None
+
+
+def drive_generator(peer: Peer, rec, use_seam=True):
+    """the real get_session_keys against the peer, replies decoded as the transports decode them"""
     from aiohomekit.protocol import get_session_keys
-    U = Universe("c01")
-    acc_id, ios_id = IDS[s.cfg]
-    ctx = Ctx()
-    ctx.U = U
-    stored_ltpk = U.edpub(ACC_LTSK)
-    pd = {"AccessoryPairingID": acc_id.decode(), "AccessoryLTPK": stored_ltpk.b.hex(),
-          "iOSPairingId": ios_id.decode(), "iOSDeviceLTSK": U.edsk(CTRL_LTSK).hex(),
-          "iOSDeviceLTPK": U.edpub(CTRL_LTSK).b.hex()}
-    a = dict(acc_id=acc_id, ltsk=ACC_LTSK, eph=ACC_EPH, ctrl_id=ios_id, ctrl_ltsk=CTRL_LTSK)
-    a.update(s.acc)
-    session = new_sid = None
-    rs_ctrl = None
-    if s.resume:
-        if s.resume.get("acc"):
-            sid, n = s.resume["acc"]
-            session = (lit(sid), prev_secret(U, n))
-        new_sid = lit(s.resume.get("new_sid", b"\x09" * 8))
-        if s.resume.get("ctrl"):
-            sid, n = s.resume["ctrl"]
-            rs_ctrl = (lit(sid), prev_secret(U, n))
-    acc = VerifyAccessory(U, a["acc_id"], a["ltsk"], a["eph"], a["ctrl_id"], U.edpub(a["ctrl_ltsk"]), session, new_sid)
-    ctx.acc, ctx.scn = acc, s
-    eph_sk = U.xsk(CTRL_EPH)
-    eph_pub = U.xpub(CTRL_EPH)
-    rec = dict(scn=s, pd=pd, eph_sk=eph_sk.hex(), m1=None, m2=None, m3=None, m4=None, exc=None)
-    sym_m2 = sym_m4 = "honest"
-    result, m3acc, keys_ok, m1kind, exp2 = "fail", None, None, "?", None
-    sid_arg = derive_arg = None
-    if rs_ctrl:
-        prev = rs_ctrl[1].b
-        sid_arg = rs_ctrl[0].b
-        derive_arg = lambda salt, info, length=32: R.hkdf_sha512(prev, bytes(salt), bytes(info), length)  # noqa: E731
+    s = peer.s
     done_val = None
-    with fixed_x25519(eph_sk):
-        gen = get_session_keys(pd, sid_arg, derive_arg) if rs_ctrl else get_session_keys(pd)
+    cm = fixed_x25519(peer.U.xsk(peer.ctrl_name)) if use_seam else contextlib.nullcontext()
+    with cm:
+        gen = get_session_keys(peer.pd, *peer.controller_args())
         req, exp2 = gen.send(None)
-    m1 = ref_encode([(int(t), bytes(v)) for t, v in req])
-    rec["m1"] = m1
-    d1 = dict(ref_decode(m1))
-    if d1.get(T_PK) != eph_pub.b:
-        raise HarnessError("ephemeral key seam ineffective: M1 carries another public key")
-    m1kind = "resume" if T_METHOD in d1 else "plain"
-    if m1kind == "plain" and ref_decode(m1) != [(T_STATE, b"\x01"), (T_PK, eph_pub.b)]:
-        m1kind = "other"
-    kind, out = acc.on_m1(m1)
-    ctx.C = acc.C
-    flt = (lambda e: None if s.transport == "ble" else [int(x) for x in e])  # noqa: E731
-    m2_raw, m2_sym = realise(s.m2, out, ctx, flt(exp2))
-    rec["m2"] = m2_raw
-    sym_m2 = None if m2_sym is None else reply_term(m2_sym)
+    rec["expected_lists"] = [int(x) for x in exp2]
+    m2_raw = peer.respond(ref_encode([(int(t), bytes(v)) for t, v in req]), exp2)
     stage = "m2"
     try:
         dec = decode_for(s.transport, m2_raw, exp2)
@@ -289,13 +347,7 @@ def run_scenario(s: Scn, glue=None):
         except StopIteration as st:
             done_val = st.value
         else:
-            m3 = ref_encode([(int(t), bytes(v)) for t, v in req3])
-            rec["m3"] = m3
-            ok, out4 = acc.on_m3(m3)
-            m3acc = ok
-            m4_raw, m4_sym = realise(s.m4, out4, ctx, flt(exp4))
-            rec["m4"] = m4_raw
-            sym_m4 = None if m4_sym is None else (reply_term(m4_sym) if s.m4 else "honest")
+            m4_raw = peer.respond(ref_encode([(int(t), bytes(v)) for t, v in req3]), exp4)
             stage = "m4"
             dec4 = decode_for(s.transport, m4_raw, exp4)
             try:
@@ -307,6 +359,32 @@ def run_scenario(s: Scn, glue=None):
         raise
     except Exception as e:  # noqa: BLE001 - any exception is the coarse outcome Fail
         rec["exc"] = f"{stage}:{type(e).__name__}"
+    return done_val
+
+
+def run_scenario(s: Scn, glue=None):
+    """Runs the implementation against the reference accessory.  Returns a record with the
+    canonical implementation line, the model request, and everything the oracle needs."""
+    U = Universe("c01")
+    rec = dict(scn=s, exc=None, prior=None, key_reused=False)
+    prior = None
+    if s.prior:
+        # an earlier, honest exchange in the same process, with whatever ephemeral key the implementation
+        # chooses (no seam); its replies are what the adversary replays into the exchange under test
+        prior = Peer(Scn("prior", s.transport, s.cfg, resume=s.resume, honest=True), U, OTHER_CTRL_EPH)
+        prec = dict(exc=None)
+        pdone = drive_generator(prior, prec, use_seam=False)
+        rec["prior"] = dict(m1=prior.m1.hex(), m2=prior.m2.hex(), m3=prior.m3.hex() if prior.m3 else None,
+                            m4=prior.m4.hex() if prior.m4 else None, done=pdone is not None, exc=prec["exc"])
+    peer = Peer(s, U)
+    if prior is not None:
+        peer.ctx.prior_m2, peer.ctx.prior_m4 = prior.m2_items, prior.m4_items
+    acc = peer.acc
+    done_val = drive_generator(peer, rec, use_seam=not s.real_eph)
+    rec.update(pd=peer.pd, eph_sk=peer.eph_sk.hex() if peer.eph_sk else None, m1=peer.m1, m2=peer.m2, m3=peer.m3, m4=peer.m4)
+    if prior is not None and prior.eph_pk == peer.eph_pk:
+        rec["key_reused"] = True
+    result, keys_ok = "fail", None
     if done_val is not None:
         result = "done"
         sid_out, derive = done_val
@@ -322,32 +400,34 @@ def run_scenario(s: Scn, glue=None):
             want = R.session_keys(acc.secret, s.transport)
             keys_ok = all(bytes(got[k]) == want[k] for k in want) and (acc.state != "resumed" or bytes(sid_out) == acc.sid)
             rec["sid_ok"] = bytes(sid_out) == acc.sid
-    rec["expected_lists"] = [int(x) for x in exp2]
     b = lambda x: "-" if x is None else ("1" if x else "0")  # noqa: E731
-    rec["impl"] = f"m1={m1kind} acc={acc.state} result={result} m3acc={b(m3acc)} keys={b(keys_ok)}"
+    rec["impl"] = f"m1={peer.m1kind} acc={acc.state} result={result} m3acc={b(peer.m3acc)} keys={b(keys_ok)}"
     # ---- model request
-    if sym_m2 is None:
-        rec["model_req"] = None                     # not TLV8: the transport's decoder fails first
+    if peer.sym_m2 is None or peer.reused_name is not None:
+        rec["model_req"] = None      # not TLV8 (the transport's decoder fails first) / names not injective
     else:
+        a, session, rs_ctrl, new_sid = peer.a, peer.session, peer.rs_ctrl, peer.new_sid
         rs_sid = msg(rs_ctrl[0]) if rs_ctrl else "-"
         rs_sec = msg(rs_ctrl[1]) if rs_ctrl else "-"
         ss_sid = msg(session[0]) if session else "-"
         ss_sec = msg(session[1]) if session else "-"
         hx = lambda x: x.hex() if x else "-"  # noqa: E731
         rec["model_req"] = " ".join([
-            "pv", s.transport, hx(acc_id), msg(stored_ltpk), hx(ios_id), str(CTRL_LTSK), str(CTRL_EPH), rs_sid, rs_sec,
+            "pv", s.transport, hx(peer.acc_id), msg(peer.stored_ltpk), hx(peer.ios_id), str(CTRL_LTSK), str(CTRL_EPH),
+            rs_sid, rs_sec,
             hx(a["acc_id"]), str(a["ltsk"]), str(a["eph"]), hx(a["ctrl_id"]), msg(U.edpub(a["ctrl_ltsk"])),
             ss_sid, ss_sec, msg(new_sid if new_sid is not None else lit(b"\x09" * 8)),
-            sym_m2, sym_m4 if sym_m4 is not None else "honest"])
-        rec["m4_not_tlv"] = sym_m4 is None
+            peer.sym_m2, peer.sym_m4 if peer.sym_m4 is not None else "honest"])
+        rec["m4_not_tlv"] = peer.sym_m4 is None
     rec["m2_unmutated"] = not s.m2
     # ---- oracle
-    kind_, secret_, why = R.oracle_verify(m2_raw, rec["m4"], s.transport, acc_id, stored_ltpk.b, eph_sk,
-                                          rs_ctrl[1].b if rs_ctrl else None)
+    kind_, secret_, why = R.oracle_verify(peer.m2, peer.m4, s.transport, peer.acc_id, peer.stored_ltpk.b, peer.dh,
+                                          peer.eph_pk, peer.rs_ctrl[1].b if peer.rs_ctrl else None)
     rec["just"] = (kind_, secret_) if kind_ else None
     rec["why_not"] = why
     rec["acc_secret"] = acc.secret
     rec["acc_state"] = acc.state
+    rec["seam_effective"] = peer.eph_sk is not None
     return rec
 
 
@@ -375,7 +455,16 @@ def gen_scenarios(tier, rnd):
         S.append(Scn("acc:other-eph", tr, acc=dict(eph=OTHER_ACC_EPH), honest=True))
         S.append(Scn("acc:controller-unknown", tr, acc=dict(ctrl_ltsk=OTHER_LTSK)))
         S.append(Scn("acc:controller-other-id", tr, acc=dict(ctrl_id=b"someone-else")))
-    U0 = Universe("c01")
+    for tr in TRANSPORTS:
+        # replies recorded in an EARLIER real exchange of the same process (ephemeral keys as the implementation
+        # chooses them, no seam) replayed verbatim into a second exchange: pv_replayed_exchange_fails
+        rep2 = [top(lambda items, ctx: ctx.prior_m2, "recorded-m2")]
+        rep4 = [top(lambda items, ctx: ctx.prior_m4 if ctx.prior_m4 is not None else items, "recorded-m4")]
+        for cfg in range(len(IDS)):
+            S.append(Scn("replayed-exchange:real-ephemeral", tr, cfg, m2=rep2, m4=rep4, prior=True, detail="m2+m4"))
+        S.append(Scn("replayed-exchange:real-ephemeral:resume", tr, 0, m2=rep2, prior=True, detail="resume-m2",
+                     resume=dict(ctrl=(b"\x01\x02\x03\x04\x05\x06\x07\x08", 1), acc=(b"\x01\x02\x03\x04\x05\x06\x07\x08", 1))))
+        S.append(Scn("honest:real-ephemeral", tr, 0, honest=True, real_eph=True))
 
     def other_key(ctx, v):
         return ctx.U.hkdf(lit(b"attacker"), lit(b"s"), lit(b"i"))
@@ -606,7 +695,7 @@ def honest_shape(transport, cfg):  # noqa: F811 - memoised
 
 
 # ------------------------------------------------------------------ real transport glue
-async def glue_ip(s: Scn, rec):
+async def glue_ip(s: Scn, peer):
     """SecureHomeKitConnection._connect_once with the TCP layer replaced; keys checked functionally."""
     import aiohomekit.controller.ip.connection as ipc
     frames = []
@@ -633,17 +722,14 @@ async def glue_ip(s: Scn, rec):
         def get_extra_info(self, *a, **k):
             return None
 
-    conn = ipc.SecureHomeKitConnection(None, dict(rec["pd"], AccessoryIP="127.0.0.1", AccessoryPort=1))
-    replies = [rec["m2"], rec["m4"]]
+    conn = ipc.SecureHomeKitConnection(None, dict(peer.pd, AccessoryIP="127.0.0.1", AccessoryPort=1))
 
     class Resp:
         def __init__(self, body):
             self.body = body
 
     async def fake_post(target, body, content_type=None):
-        if not replies or replies[0] is None:
-            raise HarnessError("glue asked for more replies than the exchange has")
-        return Resp(replies.pop(0))
+        return Resp(peer.respond(bytes(body)))
 
     async def fake_base_connect(self):
         self.transport = FakeTransport()
@@ -654,7 +740,7 @@ async def glue_ip(s: Scn, rec):
     orig = ipc.HomeKitConnection._connect_once
     ipc.HomeKitConnection._connect_once = fake_base_connect
     try:
-        with fixed_x25519(bytes.fromhex(rec["eph_sk"])):
+        with fixed_x25519(peer.U.xsk(CTRL_EPH)):
             try:
                 await conn._connect_once()
             except HarnessError:
@@ -665,7 +751,7 @@ async def glue_ip(s: Scn, rec):
         ipc.HomeKitConnection._connect_once = orig
     # functional key check: a request frame must open under the accessory's c2a key, and a
     # response sealed under its a2c key must be accepted
-    want = R.session_keys(rec["acc_secret"], "ip") if rec["acc_secret"] else None
+    want = R.session_keys(peer.acc.secret, "ip") if peer.acc.secret else None
     frames.clear()
     task = asyncio.ensure_future(conn.protocol.send_bytes(b"GET /x HTTP/1.1\r\n\r\n"))
     await asyncio.sleep(0)
@@ -692,9 +778,8 @@ async def glue_ip(s: Scn, rec):
     return "done", ok, None
 
 
-async def glue_coap(s: Scn, rec):
+async def glue_coap(s: Scn, peer):
     import aiohomekit.controller.coap.connection as cc
-    replies = [rec["m2"], rec["m4"]]
 
     class Resp:
         def __init__(self, payload):
@@ -708,9 +793,7 @@ async def glue_coap(s: Scn, rec):
 
     class FakeCtx:
         def request(self, message):
-            if not replies or replies[0] is None:
-                raise HarnessError("glue asked for more replies than the exchange has")
-            return Req(replies.pop(0))
+            return Req(peer.respond(bytes(message.payload)))
 
         async def shutdown(self):
             pass
@@ -728,16 +811,16 @@ async def glue_coap(s: Scn, rec):
     orig = cc.Context
     cc.Context = FakeContext
     try:
-        with fixed_x25519(bytes.fromhex(rec["eph_sk"])):
+        with fixed_x25519(peer.U.xsk(CTRL_EPH)):
             try:
-                await conn.do_pair_verify(rec["pd"])
+                await conn.do_pair_verify(peer.pd)
             except HarnessError:
                 raise
             except Exception as e:  # noqa: BLE001
                 return "fail", None, type(e).__name__
     finally:
         cc.Context = orig
-    want = R.session_keys(rec["acc_secret"], "coap") if rec["acc_secret"] else None
+    want = R.session_keys(peer.acc.secret, "coap") if peer.acc.secret else None
     ok = False
     if want:
         n0 = bytes(4) + (0).to_bytes(8, "little")
@@ -750,15 +833,13 @@ async def glue_coap(s: Scn, rec):
     return "done", ok, None
 
 
-async def glue_ble(s: Scn, rec, rs_ctrl):
+async def glue_ble(s: Scn, peer):
     import aiohomekit.controller.ble.client as bc
     import aiohomekit.controller.ble.pairing as bp
-    replies = [rec["m2"], rec["m4"]]
+    rs_ctrl = peer.controller_args()
 
     async def fake_char_write(client, ek, dk, handle, iid, body):
-        if not replies or replies[0] is None:
-            raise HarnessError("glue asked for more replies than the exchange has")
-        return replies.pop(0)
+        return peer.respond(bytes(body))
 
     class FakeClient:
         address = "00:00"
@@ -772,14 +853,14 @@ async def glue_ble(s: Scn, rec, rs_ctrl):
     p = bp.BlePairing.__new__(bp.BlePairing)
     p._ble_request_lock = asyncio.Lock()
     p.client = FakeClient()
-    p.pairing_data = rec["pd"]
+    p.pairing_data = peer.pd
     p._session_id = rs_ctrl[0] if rs_ctrl else None
     p._derive = rs_ctrl[1] if rs_ctrl else None
     p._encryption_key = p._decryption_key = None
     orig = bc.char_write
     bc.char_write = fake_char_write
     try:
-        with fixed_x25519(bytes.fromhex(rec["eph_sk"])):
+        with fixed_x25519(peer.U.xsk(CTRL_EPH)):
             try:
                 await p._async_pair_verify()
             except HarnessError:
@@ -788,7 +869,7 @@ async def glue_ble(s: Scn, rec, rs_ctrl):
                 return "fail", None, type(e).__name__
     finally:
         bc.char_write = orig
-    want = R.session_keys(rec["acc_secret"], "ble") if rec["acc_secret"] else None
+    want = R.session_keys(peer.acc.secret, "ble") if peer.acc.secret else None
     ok = False
     if want:
         n0 = bytes(4) + (0).to_bytes(8, "little")
@@ -801,30 +882,28 @@ async def glue_ble(s: Scn, rec, rs_ctrl):
 
 
 def glue_pass(scns, recs):
-    """second pass over selected scenarios through the real transport coroutines"""
+    """second pass over selected scenarios through the real transport coroutines, each against a fresh,
+    live reference accessory (the replies are computed for the requests actually received)"""
     out = []
 
     async def main():
         for s, rec in zip(scns, recs):
+            if s.prior:
+                out.append(None)
+                continue
             if s.transport == "ble":
                 d2 = ref_decode(rec["m2"]) or []
                 d4 = ref_decode(rec["m4"]) if rec["m4"] else []
                 if any(t in (12, 13) for t, _ in d2 + (d4 or [])):
                     out.append(None)          # fragment reassembly path: C15's ble_reassembly, excluded here
                     continue
-                rs = None
-                if s.resume and s.resume.get("ctrl"):
-                    U = Universe("c01")
-                    sid, n = s.resume["ctrl"]
-                    prev = prev_secret(U, n).b
-                    rs = (sid, lambda salt, info, length=32, prev=prev: R.hkdf_sha512(prev, bytes(salt), bytes(info), length))
-                out.append(await glue_ble(s, rec, rs))
+                out.append(await glue_ble(s, Peer(s)))
             elif s.resume:
                 out.append(None)              # IP / CoAP glue never offers a resume
             elif s.transport == "ip":
-                out.append(await glue_ip(s, rec))
+                out.append(await glue_ip(s, Peer(s)))
             else:
-                out.append(await glue_coap(s, rec))
+                out.append(await glue_coap(s, Peer(s)))
     asyncio.run(main())
     return out
 
@@ -832,12 +911,15 @@ def glue_pass(scns, recs):
 # ------------------------------------------------------------------ run
 def replay_payload(s, rec, model=None, extra=None):
     p = dict(scenario=s.ident(), transport=s.transport, pairing_data=rec["pd"], controller_eph_sk=rec["eph_sk"],
+             prior_exchange=rec.get("prior"), key_reused=rec.get("key_reused"),
              m1=rec["m1"].hex() if rec["m1"] else None, m2=rec["m2"].hex() if rec["m2"] is not None else None,
              m3=rec["m3"].hex() if rec["m3"] else None, m4=rec["m4"].hex() if rec["m4"] is not None else None,
              impl=rec["impl"], impl_exception=rec["exc"], model=model,
              oracle_justifies_done=bool(rec["just"]), oracle_reason=rec.get("why_not"), impl_keys=rec.get("keys"),
              accessory_keys={k: v.hex() for k, v in R.session_keys(rec["acc_secret"], s.transport).items()} if rec["acc_secret"] else None,
-             how_to_replay="patch X25519PrivateKey.generate to return controller_eph_sk, g = get_session_keys(pairing_data"
+             how_to_replay="(replayed-exchange scenarios: no patching; run prior_exchange first: g0 = get_session_keys("
+                           "pairing_data), feed prior m2/m4; then a second generator gets the same m2/m4.)  Otherwise: "
+                           "patch X25519PrivateKey.generate to return controller_eph_sk, g = get_session_keys(pairing_data"
                            "[, session_id, derive]); g.send(None); g.send(TLV.decode_bytes(m2, expected) (dict(...) on BLE)); "
                            "g.send(TLV.decode_bytes(m4, expected))")
     if s.resume:
@@ -918,7 +1000,16 @@ def run(ctx):
                  model_outcome=(mcls or ("done" if mcoarse and "result=done" in mcoarse else "transport-parse-error")))
         # ---- property oracle first
         bad = None
-        if impl_done and not just:
+        if s.prior and rec["key_reused"]:
+            viol.append(violation("ephemeral-key-reused:" + s.transport,
+                                  "two pair-verify exchanges of one process sent the SAME controller Curve25519 public key in "
+                                  f"M1: the session key and the accessory's signature are not bound to a fresh key [{s.ident()}]",
+                                  True, **replay_payload(s, rec, model_line)))
+        if s.prior and impl_done:
+            bad = ("replayed-exchange-accepted:" + s.transport,
+                   "M2/M4 recorded from an earlier exchange were replayed verbatim, with nobody holding the accessory's "
+                   "long-term key taking part, and the implementation returned session keys")
+        elif impl_done and not just:
             bad = ("accepted-unauthentic:" + str(rec["why_not"]) + ":" + s.transport,
                    "the implementation returned session keys although the delivered replies fail the C01 acceptance "
                    f"condition, evaluated independently on the bytes (reason: {rec['why_not']})")
